@@ -10,6 +10,7 @@ import Jsonapi.Driver.Struct
 import Jsonapi.Driver.Resource
 import Jsonapi.Driver.Marshal
 import Jsonapi.Driver.Unmarshal
+import Jsonapi.Driver.Url
 open Jsonapi Jsonapi.Driver
 
 structure DState where
@@ -45,6 +46,9 @@ def stepLine (st : DState) (line : String) : DState × String :=
     (st, m ++ "\t" ++ sp ++ "\t" ++ (if dom then "1" else "0"))
   | [.list (.atom "unm" :: args)] =>
     let (m, sp, dom) := stepUnm args
+    (st, m ++ "\t" ++ sp ++ "\t" ++ (if dom then "1" else "0"))
+  | [.list (.atom "url" :: args)] =>
+    let (m, sp, dom) := stepUrl args
     (st, m ++ "\t" ++ sp ++ "\t" ++ (if dom then "1" else "0"))
   | _ => (st, "bad-line\t-\t0")
 
